@@ -190,12 +190,14 @@ def make_method(cls="method", sites=None, consider_weather=False, name="M", **kw
     props = properties(**kw)
     klass = CLASSES[cls]
     warnings.simplefilter("ignore", RuntimeWarning)   # crew estimate divides by a zero survey time
-    if cls in ("site", "equipment"):
-        return klass(name, props, consider_weather, sites=sites,
-                     follow_up_schedule=StubFollowUpSchedule(), input_dir=None)
-    if cls == "component":
+    import contextlib
+    import io
+
+    with contextlib.redirect_stdout(io.StringIO()):   # crew-shortage / follow-up crew warnings are printed
+        if cls in ("site", "equipment"):
+            return klass(name, props, consider_weather, sites=sites,
+                         follow_up_schedule=StubFollowUpSchedule(), input_dir=None)
         return klass(name, props, consider_weather, sites, None)
-    return klass(name, props, consider_weather, sites, None)
 
 
 def make_method_from(cls, props, sites=None, consider_weather=False, name="M"):
@@ -204,10 +206,14 @@ def make_method_from(cls, props, sites=None, consider_weather=False, name="M"):
     sites = sites if sites is not None else [StubSite("s0", 60)]
     klass = CLASSES[cls]
     warnings.simplefilter("ignore", RuntimeWarning)
-    if cls in ("site", "equipment"):
-        return klass(name, props, consider_weather, sites=sites,
-                     follow_up_schedule=StubFollowUpSchedule(), input_dir=None)
-    return klass(name, props, consider_weather, sites, None)
+    import contextlib
+    import io
+
+    with contextlib.redirect_stdout(io.StringIO()):
+        if cls in ("site", "equipment"):
+            return klass(name, props, consider_weather, sites=sites,
+                         follow_up_schedule=StubFollowUpSchedule(), input_dir=None)
+        return klass(name, props, consider_weather, sites, None)
 
 
 class TravelScript:
@@ -396,7 +402,8 @@ def impl_day(case, cost_kw=None, daylight=None):
     for j, (sid, S, P, ip, trav, T, scost, w, td) in enumerate(reqs):
         sites.append(StubSite("s%d" % sid, S, scost, method=name, lat=0, lon=j))
     m = build_method(cls, stationary, cost_type, unit_cost, budget, crews, consider_weather, sites, upfront, cost_kw,
-                     name=name)
+                     name=name, portfolio=opts.get("portfolio"), follow_up=bool(opts.get("follow_up")),
+                     use_estimate=bool(opts.get("estimate")))
     planners = []
     for s, (sid, S, P, ip, trav, T, scost, w, td) in zip(sites, reqs):
         pl = SurveyPlanner(s)
@@ -411,9 +418,51 @@ def impl_day(case, cost_kw=None, daylight=None):
     return run_day(m, sites, planners, reqs, day)
 
 
+EST_WORKDAY = 8   # workday (hours) the constructor sees when a portfolio is given (the estimate uses it)
+
+
+def portfolio_sites(portfolio, name="M"):
+    """the sites the method is constructed for: (n_sites, surveys per year, survey minutes)"""
+    (n, freq, stime) = portfolio[:3]
+    return [StubSite("p%d" % i, stime, method=name, freq=freq) for i in range(n)]
+
+
+def crew_estimate(portfolio, travel=0, workday=EST_WORKDAY):
+    """LDAR-Sim's documented crew estimate for a routine mobile method, computed here from the
+    configuration: ceil(n_sites / (sites per crew-day x days between surveys))"""
+    import math
+
+    (n, freq, stime) = portfolio[:3]
+    per_day = (workday * 60 - travel) / (stime + travel)
+    return math.ceil(n / (per_day * (365 / freq)))
+
+
+def configured_crews(case):
+    """how many crews the method of a day case has BY ITS CONFIGURATION (never read from the Method
+    object): stationary -> 1 pseudo crew; crew_count > 0 -> crew_count; crew_count 0 -> none in the
+    'no crews left' cases the harness forces, or the documented estimate (1 for a follow-up method)
+    when the case says the estimate is to be used"""
+    (cls, stationary, cost_type, unit_cost, budget, crews, consider_weather, reqs) = case[:8]
+    opts = case[9] if len(case) > 9 and case[9] else {}
+    if stationary:
+        return 1
+    if crews > 0:
+        return crews
+    if not opts.get("estimate"):
+        return 0
+    if opts.get("follow_up"):
+        return 1
+    return crew_estimate(opts["portfolio"])
+
+
 def build_method(cls, stationary, cost_type, unit_cost, budget, crews, consider_weather, sites, upfront=0,
-                 cost_kw=None, name="M"):
-    kw = dict(stationary=stationary, workday=1, crews=max(crews, 1), travel=0, upfront=upfront)
+                 cost_kw=None, name="M", portfolio=None, follow_up=False, use_estimate=False):
+    """the real constructor path.  With a `portfolio` the method is constructed for that many sites
+    (surveys per year, survey minutes) with an 8 h workday, so that LDAR-Sim's own crew estimate can
+    be smaller than, equal to or larger than the configured crew_count; the day itself is then run
+    on the planned `sites` with the case's budget."""
+    kw = dict(stationary=stationary, workday=(EST_WORKDAY if portfolio else 1), crews=(crews if (portfolio or use_estimate) else max(crews, 1)),
+              travel=0, upfront=upfront, follow_up=follow_up)
     if cost_type == "day":
         kw["per_day"] = unit_cost
         kw["per_site"] = 7
@@ -425,8 +474,9 @@ def build_method(cls, stationary, cost_type, unit_cost, budget, crews, consider_
     if cost_kw is not None:   # explicit cost block (C10): per_day, per_site (None = key absent), upfront
         kw.pop("per_site", None)
         kw.update(cost_kw)
-    m = make_method(cls, sites=sites or [StubSite("s0", 60, method=name)], consider_weather=consider_weather, name=name, **kw)
-    if crews == 0 and not stationary:
+    ctor_sites = portfolio_sites(portfolio, name) if portfolio else (sites or [StubSite("s0", 60, method=name)])
+    m = make_method(cls, sites=ctor_sites, consider_weather=consider_weather, name=name, **kw)
+    if crews == 0 and not stationary and not use_estimate:
         # a method whose crews are all gone: the constructor cannot produce it (crew_count 0 means
         # "estimate"), the loop of deploy_crews can still be asked what it does without crews
         m._crews = 0
@@ -543,6 +593,7 @@ def day_line(case):
     uc = unit_cost if cost_type in ("day", "site") else 0
     rq = reqs_token(reqs)
     e = ENV
+    crews = configured_crews(case)
     return "day %d %d %d %d %d %d %d [%d,%d,%d,%d,%d,%d] %s" % (
         SCALE_CODE[cls], int(stationary), per_site, uc, budget, crews, int(consider_weather),
         e["temp"][0], e["temp"][1], e["wind"][0], e["wind"][1], e["precip"][0], e["precip"][1], rq)
@@ -719,3 +770,18 @@ def pickle_roundtrip(obj):
     import pickle
 
     return pickle.loads(pickle.dumps(obj))
+
+
+# ------------------------------------------------------------------------------------------------
+# how many crews a method is built with (the real constructors)
+# ------------------------------------------------------------------------------------------------
+def impl_crews(cls, stationary, follow_up, configured, portfolio):
+    """real constructor of the class for the given portfolio; returns (get_crew_count(), crew ids of
+    the crew reports, estimate_average_daily_surveys())"""
+    m = make_method(cls, sites=portfolio_sites(portfolio), stationary=stationary, follow_up=follow_up,
+                    crews=configured, workday=EST_WORKDAY, travel=0)
+    return m.get_crew_count(), [c.crew_id for c in m._crew_reports]
+
+
+def crews_line(stationary, follow_up, configured, portfolio):
+    return "crews %d %d %d %d" % (int(stationary), int(follow_up), configured, crew_estimate(portfolio))
